@@ -131,7 +131,7 @@ Gen gen_reply(Src &s, const std::vector<uint8_t> &query, const Query &q, uint16_
   if (adv) {
     const bool allow_q_mismatch = allow.qregion; size_t lo = allow_q_mismatch ? 2 : 12 + q.qname_len + 4; if (!allow.servfail && lo < 4) lo = 4;      // with question mismatches excluded, leave header+question intact (the ID may still flip)
     switch (s.below(8)) {
-      case 1: { size_t cut = s.below((uint32_t)g.bytes.size() + 1); if (!allow_q_mismatch && cut < lo) cut = lo; if (cut < g.bytes.size()) { g.bytes.resize(cut); g.pristine = false; } break; }
+      case 1: { size_t cut = s.below((uint32_t)g.bytes.size() + 1); if (s.flag() && g.bytes.size() > 30) cut = g.bytes.size() - 1 - s.below(24);   /* often: inside the last record */ if (!allow_q_mismatch && cut < lo) cut = lo; if (cut < g.bytes.size()) { g.bytes.resize(cut); g.pristine = false; } break; }
       case 2: { int n = 1 + s.below(3); for (int k = 0; k < n && g.bytes.size() > lo; k++) { size_t at = lo + s.below((uint32_t)(g.bytes.size() - lo)); g.bytes[at] ^= (uint8_t)(1u << s.below(8)); } g.pristine = false; break; }
       case 3: { int n = 1 + s.below(12); for (int k = 0; k < n; k++) g.bytes.push_back(s.byte()); g.pristine = false; break; }
       case 4: g.bytes[0] ^= 0x40; g.pristine = false; break;     // ID off by a bit
